@@ -5,7 +5,7 @@ import json, os, subprocess, sys
 ROOT = os.path.dirname(os.path.dirname(os.path.abspath(__file__)))
 
 # id -> (implemented, category, technique, level text, note, design_ref)
-W1 = "4 planners x 6 space families x generated worlds / parameters / seeds under the virtual clock, planner-RNG and scripted sample sequences (16 000 runs quick, 1.5 million thorough; C03: 8 000 / 600 000), plus call histories (re-setup with a new checker on the same problem object, repeated solve, replaced problems, user-mutated step / radius fields) and problems that list two or three start states (valid, deep or marginally inside an obstacle); C01 / C03 / C05 also run 64 variants of a hand-shaped world in which the tree spirals around a finite wall"
+W1 = "4 planners x 6 space families x generated worlds / parameters / seeds under the virtual clock, planner-RNG and scripted sample sequences (16 000 runs quick, 1.5 million thorough; C03: 8 000 / 600 000), plus call histories (re-setup with a new checker on the same problem object, repeated solve, replaced problems, user-mutated step / radius fields) and problems that list two or three start states (valid, deep or marginally inside an obstacle); C01 also runs worlds whose declared bounds overflow the space's extent; C01 / C03 / C05 also run 64 variants of a hand-shaped world in which the tree spirals around a finite wall"
 CHECKS = {
     "C01": (True, "exploration",
             "runtime monitor at the validity-checker boundary: every state of every returned path re-evaluated with the pure validity function; invalid-start cases checked against the required error",
@@ -24,12 +24,12 @@ CHECKS = {
             "DESIGN.md section 5 C03"),
     "C04": (True, "exploration",
             "runtime oracle on returned paths: independent bounds test, precondition (start / goal samples in bounds) taken from the event log",
-            "Returned paths of " + W1 + " on bounded spaces (boxes, angular intervals of every span, cones, compounds) are tested state by state with an independent bounds test; start states may carry un-normalised angles. Non-convex angular regions are the known finding K-1 (keyed on the violating component kind).",
+            "Returned paths of " + W1 + " on bounded spaces (boxes, angular intervals of every span, cones, compounds) are tested state by state with an independent bounds test; start states may carry un-normalised angles; boxes with equally long sides at different offsets. Non-convex angular regions are the known finding K-1 (keyed on the violating component kind).",
             "Trusted: reference bounds test with 1e-9 / 1e-7 allowances.",
             "DESIGN.md section 5 C04"),
     "C05": (True, "exploration",
             "runtime oracle on returned paths: consecutive-state distance against the configured limit",
-            "Returned paths of " + W1 + " with steps / radii from 1e-3x to 10x the diameter are checked segment by segment in the space's own metric; start states may carry un-normalised angles or lie outside the sampling box; RRT* radii include 0.",
+            "Returned paths of " + W1 + " with steps / radii from 1e-3x to 10x the diameter are checked segment by segment in the space's own metric; start states may carry un-normalised angles or lie outside the sampling box; RRT* radii include 0; very deep trees (5 000 nodes, thorough: 70 000).",
             "Trusted: the space's own distance (C09).",
             "DESIGN.md section 5 C05"),
     "C06": (True, "exploration",
@@ -79,7 +79,7 @@ CHECKS = {
             "DESIGN.md section 5 C10"),
     "C11": (True, "exploration",
             "runtime assertions on sample_uniform / enforce_bounds / satisfies_bounds executions with an independent bounds test and a draw-budgeted generator",
-            "Hostile states (far outside, on and one ulp around the boundary, non-canonical angles, zero and non-unit quaternions) are enforced and 2e3/2e5 samples are drawn per constructible bound setting (about 170/420 settings over all six spaces, SO3 cones from 1e-3 rad to pi, SO2 intervals a few ulps wide or touching +-pi); boxes with up to 17 coordinates and probes with exactly one coordinate outside; each execution is checked for agreement of the three operations, canonical form (the enforced angle numerically inside its interval), idempotence, an independent bounds test and absence of panics.",
+            "Hostile states (far outside, on and one ulp around the boundary, non-canonical angles, zero and non-unit quaternions) are enforced and 2e3/2e5 samples are drawn per constructible bound setting (about 170/420 settings over all six spaces, SO3 cones from 1e-3 rad to pi (sampled from 0.04 rad up), SO2 intervals a few ulps wide or touching +-pi); boxes with up to 17 coordinates and probes with exactly one coordinate outside; each execution is checked for agreement of the three operations, canonical form (the enforced angle numerically inside its interval), idempotence, an independent bounds test and absence of panics.",
             "Trusted: reference bounds test with 1e-9 (2.5e-7 for SO3) allowance. SO3 cones in [1e-9,0.1) rad are enforced but not sampled.",
             "DESIGN.md section 5 C11"),
     "C12": (True, "exploration",
@@ -94,7 +94,7 @@ CHECKS = {
             "DESIGN.md section 5 C13"),
     "C14": (True, "exploration",
             "statistical runtime monitor: DKW goodness-of-fit of large samples against exact marginal laws and two-sample DKW independence tests at alpha = 1e-9",
-            "2e5 (quick) / 5e6 (thorough) samples per setting (tight SO3 cones: 3e3+) are drawn through sample_uniform and every scalar statistic (quaternion coordinates on absolute values: q and -q are one rotation; wide cones and cones around large rotations in every run) is compared with its exact law; a deviation above the DKW epsilon (7.3e-3 / 1.5e-3) is a violation with false-alarm probability below 1e-6 per run. Biases below epsilon are invisible.",
+            "2e5 (quick) / 5e6 (thorough) samples per setting (tight SO3 cones: 3e3+) are drawn through sample_uniform and every scalar statistic (quaternion coordinates on absolute values: q and -q are one rotation; wide cones, cones around large rotations, a 0.07 rad cone and a 50-dimensional box in every run) is compared with its exact law; a deviation above the DKW epsilon (7.3e-3 / 1.5e-3) is a violation with false-alarm probability below 1e-6 per run. Biases below epsilon are invisible.",
             "Trusted: ChaCha8 as the source of randomness; exact marginal laws derived in DESIGN.md.",
             "DESIGN.md section 5 C14"),
     "C19": (True, "exploration",
